@@ -1,14 +1,16 @@
 import Martian.Model.Proxy
+import Martian.Model.ProxyWire
 import Martian.Drv.GoLib
 /-! Shared driver of the exchange machine (C01, C02, C03, C05 use the same op language). -/
 namespace Martian.Drv.Proxy
-open Martian Martian.Proxy
+open Martian Martian.Proxy Martian.Proxy.Wire
 
 structure St where
   shutdown : Bool := false
   tlsListener : Bool := false
   quiet : Bool := false        -- the client hangs up after the last scripted request (no probe)
   items : List Item := []     -- reversed
+  xws : List (Option XW) := [] -- reversed; wire attributes of the non-CONNECT items
   bad : Bool := false
 
 def init : St := {}
@@ -16,47 +18,100 @@ def init : St := {}
 def kv (toks : List String) (k : String) : Option String :=
   toks.findSome? fun t => if t.startsWith (k ++ "=") then some ((t.drop (k.length + 1)).toString) else none
 
-def parseRq : String → Option ReqB
-  | "pass" => some .pass | "err" => some .err | "skip" => some .skip
-  | "errskip" => some .errSkip | "hijack" => some .hijack | _ => none
-def parseRs : String → Option ResB
-  | "pass" => some .pass | "err" => some .err | "hijack" => some .hijack | _ => none
+/-- The error value a scripted modifier returns (`ek=` / `sek=`; default: an ordinary error). -/
+def parseErrVal : Option String → Option ErrVal
+  | none | some "plain" => some .plain
+  | some "wrapped" => some .wrapped | some "multi" => some .multi | some "multieof" => some .multiEof
+  | some "ueof" => some .unexpectedEof | some "canceled" => some .canceled | some "refused" => some .refused
+  | some "eof" => some .eof | some "pipe" => some .closedPipe | some "timeout" => some .timeout
+  | some "optimeout" => some .opTimeout | some "deadline" => some .deadline
+  | some "ctxdeadline" => some .ctxDeadline | some "dnstimeout" => some .dnsTimeout
+  | _ => none
+
+def parseRq (ek : Option String) : String → Option ReqB
+  | "pass" => some .pass | "err" => (parseErrVal ek).map .err | "skip" => some .skip
+  | "errskip" => (parseErrVal ek).map .errSkip | "hijack" => some .hijack | _ => none
+def parseRs (sek : Option String) : String → Option ResB
+  | "pass" => some .pass | "err" => (parseErrVal sek).map .err | "hijack" => some .hijack | _ => none
 def parseBool : String → Option Bool | "1" => some true | "0" => some false | _ => none
 
-def parseItem (toks : List String) : Option Item := do
-  let rq ← (kv toks "rq").bind parseRq
-  let rs ← (kv toks "rs").bind parseRs
+def parseMinor : Option String → Option Nat
+  | none | some "11" => some 1 | some "10" => some 0 | _ => none
+
+def splitLines (b : Bytes) : List Bytes := Go.split b 10
+
+/-- Connection lines: `<key>=<hex of the lines joined by LF>` or `-`; when the key is absent the
+legacy flag (`rc=1` / `oc=1`) stands for a single `close`. -/
+def parseConn (toks : List String) (key legacy : String) : Option (List Bytes) :=
+  match kv toks key with
+  | some "-" => some []
+  | some h => (unhex h).map splitLines
+  | none => some (if kv toks legacy == some "1" then [tokClose] else [])
+
+def parseFraming : Option String → Option OFraming
+  | none | some "cl" => some .cl | some "ch" => some .chunked | some "close" => some .eof | _ => none
+
+def parseXW (toks : List String) : Option XW := do
+  let rm ← parseMinor (kv toks "pv")
+  let rc ← parseConn toks "ct" "rc"
+  let om ← parseMinor (kv toks "opv")
+  let oc ← parseConn toks "oct" "oc"
+  let fr ← parseFraming (kv toks "of")
+  let st ← (kv toks "st").bind String.toNat?
+  pure { reqMinor := rm, reqConn := rc, head := kv toks "m" == some "HEAD", status := st,
+         resMinor := om, resConn := oc, framing := fr }
+
+def parseItem (toks : List String) : Option (Item × Option XW) := do
+  let rq ← (kv toks "rq").bind (parseRq (kv toks "ek"))
+  let rs ← (kv toks "rs").bind (parseRs (kv toks "sek"))
   match toks.head? with
   | some "x" =>
-    let rc ← (kv toks "rc").bind parseBool
     let o ← kv toks "o"
-    let st ← (kv toks "st").bind String.toNat?
-    let cl ← (kv toks "rcl").bind parseBool
-    let org ← (if o = "ok" then some (Org.ok st cl)
+    let x ← parseXW toks
+    let org ← (if o = "ok" then some (Org.ok x.status false)
                else if o = "fail" then some Org.fail
-               else if o = "trunc" then some (Org.trunc st) else none)
-    pure (.x rc rq rs org)
-  | some "cmitm" => do let t ← (kv toks "tls").bind parseBool; pure (.connectMitm t rq rs)
-  | some "cblind" => do let d ← (kv toks "dial").bind parseBool; pure (.connectBlind d rq rs)
+               else if o = "trunc" then some (Org.trunc x.status) else none)
+    -- `req.Close` / `res.Close` are computed from the versions and Connection tokens
+    pure (toItem x rq rs org, some x)
+  | some "cmitm" => do let t ← (kv toks "tls").bind parseBool; pure (.connectMitm t rq rs, none)
+  | some "cblind" => do let d ← (kv toks "dial").bind parseBool; pure (.connectBlind d rq rs, none)
   | _ => none
 
 def b (x : Bool) : String := if x then "1" else "0"
 
 def isRead (i : Nat) : Ev → Bool | .read j => j == i | _ => false
 
-def writeInfo (i : Nat) : List Ev → String
-  | [] => "st=-,cm=-,cp=-"
-  | .write j st cm cp :: r => if j == i then s!"st={st},cm={b cm},cp={b cp}" else writeInfo i r
-  | _ :: r => writeInfo i r
+def showFraming : WFraming → String
+  | .contentLength => "cl" | .chunked => "ch" | .untilClose => "eof" | .noBody => "none"
 
-def reqInfo (i : Nat) : List Ev → String
-  | [] => "https=-,sec=-,tls=-"
-  | .reqmod j _ h s t :: r => if j == i then s!"https={b h},sec={b s},tls={b t}" else reqInfo i r
+/-- Was the response of this exchange made by `proxyutil.NewResponse` (skip round trip, 502)? -/
+def synthetic : Item → Bool
+  | .x _ rq _ org => rqSkip rq || org == .fail
+  | _ => false
+
+/-- Status, close mark as a client parsing the response reads it, completeness. For a non-CONNECT
+exchange the mark is that of the written header (`Wire.written`). -/
+def writeInfo (i : Nat) (it : Option Item) (xw : Option XW) : List Ev → String × String
+  | [] => ("st=-,cm=-,cp=-", "pv=-,fr=-")
+  | .write j st cm cp :: r =>
+    if j == i then
+      match it, xw with
+      | some it, some x =>
+        let w := written x (synthetic it) cm
+        (s!"st={st},cm={b w.saysClose},cp={b cp}", s!"pv=1{w.minor},fr={showFraming w.framing}")
+      | _, _ => (s!"st={st},cm={b cm},cp={b cp}", "pv=-,fr=-")
+    else writeInfo i it xw r
+  | _ :: r => writeInfo i it xw r
+
+def reqInfo (i : Nat) : List Ev → String × String
+  | [] => ("https=-,sec=-,tls=-", "tid=-")
+  | .reqmod j _ h s t tid :: r =>
+    if j == i then (s!"https={b h},sec={b s},tls={b t}", s!"tid={tid}") else reqInfo i r
   | _ :: r => reqInfo i r
 
 def hijInfo (i : Nat) : List Ev → String
-  | [] => "hij=-"
-  | .hijacked j t :: r => if j == i then (if t then "hij=tls" else "hij=raw") else hijInfo i r
+  | [] => "hij=-,htid=-"
+  | .hijacked j t tid :: r => if j == i then (if t then s!"hij=tls,htid={tid}" else s!"hij=raw,htid={tid}") else hijInfo i r
   | _ :: r => hijInfo i r
 
 def upTls (i : Nat) : List Ev → String
@@ -64,13 +119,30 @@ def upTls (i : Nat) : List Ev → String
   | .upstream j t :: r => if j == i then b t else upTls i r
   | _ :: r => upTls i r
 
-def summary (evs : List Ev) (i : Nat) : String :=
+def summary (items : List Item) (xws : List (Option XW)) (evs : List Ev) (i : Nat) : String :=
   if !(evs.any (isRead i)) then s!"{i}:unserved" else
+  let (wi, wattr) := writeInfo i items[i]? (xws[i]?.join) evs
+  let (ri, tid) := reqInfo i evs
   s!"{i}:rq={countP (isReqmod i) evs},up={b (countP (isUpstream i) evs > 0)},uptls={upTls i evs}," ++
   -- response-side warnings are observable only on a response that is written to the client
   let written := countP (isWrite i) evs > 0
   s!"rs={countP (isResmod i) evs},wq={countP (isWarnReq i) evs},wt={if written then countP (isWarnRt i) evs else 0}," ++
-  s!"ws={if written then countP (isWarnRes i) evs else 0},{writeInfo i evs},{reqInfo i evs},{hijInfo i evs}"
+  s!"ws={if written then countP (isWarnRes i) evs else 0},{wi},{ri},{hijInfo i evs},{tid},{wattr}"
+
+/-- The differential ops of the wire functions (`go/internal/pxy/wire.go`, against the real net/http). -/
+def wireOp : List String → Option String
+  | ["h1.reqclose", pv, ct] => some <|
+    match parseMinor (some pv), parseConn [s!"ct={ct}"] "ct" "rc" with
+    | some m, some c => s!"close={b (shouldClose 1 m c)}"
+    | _, _ => "bad-op"
+  | ["h1.reswrite", m, st, opv, oct, fr, ask] => some <|
+    match st.toNat?, parseMinor (some opv), parseConn [s!"oct={oct}"] "oct" "oc", parseFraming (some fr), parseBool ask with
+    | some st, some om, some oc, some fr, some ask =>
+      let x : XW := { head := m == "HEAD", status := st, resMinor := om, resConn := oc, framing := fr }
+      let w := written x false (ask || resClose x)
+      s!"rclose={b (resClose x)} pv=1{w.minor} fr={showFraming w.framing} cm={b w.saysClose}"
+    | _, _, _, _, _ => "bad-op"
+  | _ => none
 
 /-- Does the connection still serve a further request after the listed items? -/
 def stillOpen (s0 : Martian.Proxy.St) (shutdown : Bool) (items : List Item) : Bool :=
@@ -84,7 +156,7 @@ def finish (s : St) : String :=
   let items := s.items.reverse
   let s0 : Martian.Proxy.St := if s.tlsListener then tlsListenerState else {}
   let evs := runConnOn s0 s.shutdown 0 items
-  let per := (List.range items.length).map (summary evs)
+  let per := (List.range items.length).map (summary items s.xws.reverse evs)
   let left := (links evs).filter (fun c => !(unlinks evs).contains c)
   " | ".intercalate per ++ s!" | open={b (!s.quiet && stillOpen s0 s.shutdown items)} ctxleft={left.length} distinct={b (links evs).Nodup}"
 
@@ -93,6 +165,7 @@ def step (s : St) (toks : List String) : St × String :=
   | "conn" :: rest =>
     let tl := (kv rest "listener") == some "tls"
     let q := (kv rest "quiet") == some "1"
+    let tl := tl || [some "tlsmitm", some "shapedtls", some "shapedtlsmitm"].contains (kv rest "listener")
     match (kv rest "shutdown").bind parseBool with
     | some sd => ({ shutdown := sd, tlsListener := tl, quiet := q }, "ok")
     | none => ({ tlsListener := tl, quiet := q }, "ok")
@@ -101,8 +174,11 @@ def step (s : St) (toks : List String) : St × String :=
     match GoLib.step toks with
     | some o => (s, o)
     | none =>
+    match wireOp toks with
+    | some o => (s, o)
+    | none =>
     match parseItem toks with
-    | some it => ({ s with items := it :: s.items }, "queued")
+    | some (it, xw) => ({ s with items := it :: s.items, xws := xw :: s.xws }, "queued")
     | none => ({ s with bad := true }, "bad-op")
 
 end Martian.Drv.Proxy
